@@ -88,7 +88,7 @@ def gen_size_expr(rng, syms):
 
 
 class Gen:
-    def __init__(self, rng, max_depth=3, max_children=3, p_rep=0.2, p_through=0.1, allow_other=True, p_shuffle=0.5, qubits=False):
+    def __init__(self, rng, max_depth=3, max_children=3, p_rep=0.2, p_through=0.1, allow_other=True, p_shuffle=0.5, qubits=False, root_sized=False):
         self.rng = rng
         self.max_depth = max_depth
         self.max_children = max_children
@@ -97,6 +97,7 @@ class Gen:
         self.allow_other = allow_other
         self.p_shuffle = p_shuffle
         self.qubits = qubits     # C16: non-negative sizes, local_ancillae resources
+        self.root_sized = root_sized   # C13: every input port of the root declares a size (see finding F13)
         self.nodes = 0
 
     def subset(self, pool, lo, hi):
@@ -170,7 +171,7 @@ class Gen:
                     size = E.sym(s)
                     size_syms.append(s)
                 else:
-                    size = None
+                    size = E.num(rng.randint(1, 6)) if self.root_sized else None
             else:
                 if rng.random() < 0.4 or not avail_sizes:
                     size = None
